@@ -1322,4 +1322,210 @@ theorem parseSounds_tempos (R : Rat → Rat) (ss : List Sound) : ∀ (st : PStat
     | none => simp [parseSound, ht, List.filterMap]
     | some q =>
       cases hd : s.dynamics <;> simp [parseSound, ht, hd, List.filterMap]
+
+/-! ### chords: the onset is COPIED, for every rounding operator -/
+
+/-- an element that may stand between the first note of a chord and one of its later notes without
+breaking the chain `previous_note`: anything that is not a note, or a `<chord/>` note with a `<duration>` -/
+def chordRun : El → Bool
+  | .note n => n.chord && n.duration.isSome
+  | _ => true
+
+/-- additionally nothing that changes divisions or tempo (so the chord notes also LAST as long) -/
+def noRetime : El → Bool
+  | .attributes _ => false
+  | .direction _ => false
+  | _ => true
+
+/-- `parseNote` on a `<chord/>` note with a duration, any `R`: onset and duration are those of
+`previous_note`, literally; the state is untouched; the length is `secondsOf` of the copied duration -/
+theorem parseNote_chord {R : Rat → Rat} {st : PState} {n : NoteEl} {st' : PState} {pn : PNote}
+    (h : parseNote R st n = .ok (st', pn)) (hc : n.chord = true) (hd : n.duration.isSome = true) :
+    ∃ pd pt, st.prev = some (pd, pt) ∧ pn.time = pt ∧ pn.duration = pd ∧ st' = st ∧
+      secondsOf R st pd = .ok pn.seconds := by
+  unfold parseNote at h
+  simp only [] at h
+  split at h
+  · contradiction
+  · split at h
+    · contradiction
+    · rename_i st1 dur time sec grace hdur
+      split at h
+      · contradiction
+      · split at h
+        · contradiction
+        · simp only [Except.ok.injEq, Prod.mk.injEq] at h
+          obtain ⟨rfl, rfl⟩ := h
+          cases hdd : n.duration with
+          | none => simp [hdd] at hd
+          | some d0 =>
+            simp only [hdd, hc, if_true] at hdur
+            split at hdur
+            · contradiction
+            · rename_i pd pt hprev
+              split at hdur
+              · contradiction
+              · rename_i sec' hsec
+                simp only [Except.ok.injEq, Prod.mk.injEq] at hdur
+                obtain ⟨rfl, rfl, rfl, rfl, rfl⟩ := hdur
+                exact ⟨pd, pt, hprev, rfl, rfl, rfl, hsec⟩
+
+/-- `secondsOf` reads only divisions and seconds-per-quarter of the state -/
+theorem secondsOf_congr (R : Rat → Rat) {a b : PState} (hd : a.divisions = b.divisions) (hs : a.spq = b.spq)
+    (d : Int) : secondsOf R a d = secondsOf R b d := by
+  unfold secondsOf
+  rw [hd, hs]
+
+/-- elements other than `<attributes>` and `<direction>` leave divisions and seconds-per-quarter alone -/
+theorem parseEl_noRetime {R : Rat → Rat} {st : PState} {m : MState} {e : El} {st' : PState} {m' : MState}
+    (h : parseEl R st m e = .ok (st', m')) (hn : noRetime e = true) :
+    st'.divisions = st.divisions ∧ st'.spq = st.spq := by
+  cases e with
+  | attributes cs => simp [noRetime] at hn
+  | direction ss => simp [noRetime] at hn
+  | backup d =>
+    simp only [parseEl] at h
+    split at h
+    · contradiction
+    · simp only [Except.ok.injEq, Prod.mk.injEq] at h
+      obtain ⟨rfl, rfl⟩ := h
+      exact ⟨rfl, rfl⟩
+  | forward d =>
+    simp only [parseEl] at h
+    split at h
+    · contradiction
+    · simp only [Except.ok.injEq, Prod.mk.injEq] at h
+      obtain ⟨rfl, rfl⟩ := h
+      exact ⟨rfl, rfl⟩
+  | harmony cs =>
+    simp only [parseEl] at h
+    split at h
+    · contradiction
+    · simp only [Except.ok.injEq, Prod.mk.injEq] at h
+      obtain ⟨rfl, rfl⟩ := h
+      exact ⟨rfl, rfl⟩
+  | other =>
+    simp only [parseEl, Except.ok.injEq, Prod.mk.injEq] at h
+    obtain ⟨rfl, rfl⟩ := h
+    exact ⟨rfl, rfl⟩
+  | note n =>
+    simp only [parseEl] at h
+    split at h
+    · contradiction
+    · rename_i st1 pn hn1
+      simp only [Except.ok.injEq, Prod.mk.injEq] at h
+      obtain ⟨rfl, rfl⟩ := h
+      show st1.divisions = st.divisions ∧ st1.spq = st.spq
+      unfold parseNote at hn1
+      simp only [] at hn1
+      split at hn1
+      · contradiction
+      · split at hn1
+        · contradiction
+        · rename_i st2 dur time sec grace hdur
+          split at hn1
+          · contradiction
+          · split at hn1
+            · contradiction
+            · simp only [Except.ok.injEq, Prod.mk.injEq] at hn1
+              obtain ⟨rfl, _⟩ := hn1
+              split at hdur
+              · simp only [Except.ok.injEq, Prod.mk.injEq] at hdur
+                obtain ⟨rfl, _⟩ := hdur
+                exact ⟨rfl, rfl⟩
+              · split at hdur
+                · split at hdur
+                  · contradiction
+                  · split at hdur
+                    · contradiction
+                    · simp only [Except.ok.injEq, Prod.mk.injEq] at hdur
+                      obtain ⟨rfl, _⟩ := hdur
+                      exact ⟨rfl, rfl⟩
+                · split at hdur
+                  · contradiction
+                  · simp only [Except.ok.injEq, Prod.mk.injEq] at hdur
+                    obtain ⟨rfl, _⟩ := hdur
+                    exact ⟨rfl, rfl⟩
+
+/-- a run of chord notes (and non-note elements) after a note: `previous_note` keeps the onset and the
+duration of that note, and every note the run appends carries them, literally, for every `R`; when the run
+does not change divisions or tempo every appended note has the length `secondsOf` gives that duration in the
+state the run started in -/
+theorem parseEls_chordRun {R : Rat → Rat} {mid : List El} : ∀ {st : PState} {m : MState} {st' : PState}
+    {m' : MState} {pd : Int} {pt : Rat}, st.prev = some (pd, pt) → (∀ e ∈ mid, chordRun e = true) →
+    parseEls R st m mid = .ok (st', m') →
+    st'.prev = some (pd, pt) ∧
+    ∃ ch, m'.notes = m.notes ++ ch ∧ ch.length = (mid.filter isNote).length ∧
+      (∀ pn ∈ ch, pn.time = pt ∧ pn.duration = pd) ∧
+      ((∀ e ∈ mid, noRetime e = true) →
+        st'.divisions = st.divisions ∧ st'.spq = st.spq ∧ ∀ pn ∈ ch, secondsOf R st pd = .ok pn.seconds) := by
+  induction mid with
+  | nil =>
+    intro st m st' m' pd pt hp _ h
+    simp only [parseEls, Except.ok.injEq, Prod.mk.injEq] at h
+    obtain ⟨rfl, rfl⟩ := h
+    exact ⟨hp, [], by simp, by simp, by simp, fun _ => ⟨rfl, rfl, by simp⟩⟩
+  | cons e es ih =>
+    intro st m st' m' pd pt hp hall h
+    simp only [parseEls] at h
+    split at h
+    · contradiction
+    · rename_i st1 m1 h1
+      have he : chordRun e = true := hall e (by simp)
+      have hes : ∀ x ∈ es, chordRun x = true := fun x hx => hall x (by simp [hx])
+      obtain ⟨_, _, hout⟩ := parseEl_out h1
+      -- the previous-note register after `e`, and what `e` appended
+      have key : st1.prev = some (pd, pt) ∧ ∃ c1, m1.notes = m.notes ++ c1 ∧
+          c1.length = ([e].filter isNote).length ∧ (∀ pn ∈ c1, pn.time = pt ∧ pn.duration = pd) ∧
+          (noRetime e = true → ∀ pn ∈ c1, secondsOf R st pd = .ok pn.seconds) := by
+        cases e with
+        | note n =>
+          simp only [chordRun, Bool.and_eq_true] at he
+          obtain ⟨st2, pn, hn, e1, e2, _, _⟩ := hout
+          obtain ⟨pd', pt', hp', a, b, _, hs⟩ := parseNote_chord hn he.1 he.2
+          rw [hp] at hp'
+          simp only [Option.some.injEq, Prod.mk.injEq] at hp'
+          obtain ⟨rfl, rfl⟩ := hp'
+          refine ⟨by rw [e2, a, b], [pn], e1, by simp [List.filter, isNote], by simp [a, b], ?_⟩
+          intro _ x hx
+          simp only [List.mem_singleton] at hx
+          subst hx
+          exact hs
+        | harmony cs =>
+          obtain ⟨_, _, _, c2, _, c4⟩ := hout
+          exact ⟨by rw [c4, hp], [], by simp [c2], by simp [List.filter, isNote], by simp, by simp⟩
+        | direction ss =>
+          obtain ⟨c1, _, c3, _⟩ := hout
+          exact ⟨by rw [c3, hp], [], by simp [c1], by simp [List.filter, isNote], by simp, by simp⟩
+        | attributes _ =>
+          obtain ⟨c1, _, _, c4⟩ := hout
+          exact ⟨by rw [c4, hp], [], by simp [c1], by simp [List.filter, isNote], by simp, by simp⟩
+        | backup _ =>
+          obtain ⟨c1, _, _, c4⟩ := hout
+          exact ⟨by rw [c4, hp], [], by simp [c1], by simp [List.filter, isNote], by simp, by simp⟩
+        | forward _ =>
+          obtain ⟨c1, _, _, c4⟩ := hout
+          exact ⟨by rw [c4, hp], [], by simp [c1], by simp [List.filter, isNote], by simp, by simp⟩
+        | other =>
+          obtain ⟨c1, _, _, c4⟩ := hout
+          exact ⟨by rw [c4, hp], [], by simp [c1], by simp [List.filter, isNote], by simp, by simp⟩
+      obtain ⟨hp1, c1, k1, k2, k3, k4⟩ := key
+      obtain ⟨r1, c2, r2, r3, r4, r5⟩ := ih hp1 hes h
+      refine ⟨r1, c1 ++ c2, by rw [r2, k1, List.append_assoc], ?_, ?_, ?_⟩
+      · rw [List.length_append, k2, r3, ← List.length_append, ← List.filter_append]
+        rfl
+      · intro pn hpn
+        rcases List.mem_append.mp hpn with hx | hx
+        · exact k3 pn hx
+        · exact r4 pn hx
+      · intro hnr
+        have hne : noRetime e = true := hnr e (by simp)
+        obtain ⟨d1, d2⟩ := parseEl_noRetime h1 hne
+        obtain ⟨d3, d4, d5⟩ := r5 (fun x hx => hnr x (by simp [hx]))
+        refine ⟨d3.trans d1, d4.trans d2, ?_⟩
+        intro pn hpn
+        rcases List.mem_append.mp hpn with hx | hx
+        · exact k4 hne pn hx
+        · rw [← secondsOf_congr R d1 d2]
+          exact d5 pn hx
 end NSV.C05
